@@ -345,6 +345,31 @@ def _cpu_sub_f32(net, pot):
 inst("cpu_sub_nopot")(lambda n: _cpu_sub_f32(n, False))
 
 
+@inst("lut_evict_chain")
+def _lut_evict_chain(net):
+    """three different 8-bit tables (TANH, LOGISTIC, HARD_SWISH), then a 16-bit table (int16 EXP, 2 KiB: it covers every 8-bit slot), then
+    HARD_SWISH again with exactly the quantisation of the first one (the same table values)"""
+    x = net.cur
+    t = net.T(x)
+    if t["dtype"] != "int8":
+        return False
+    shp = t["shape"]
+
+    def un(op, q, opts=None, dt="int8"):
+        y = net.act(shp, dt, q=q)
+        net.op(op, [net.cur], [y], opts)
+
+    qa = (0.0021, -100)
+    un("TANH", (1 / 128, 0))
+    un("LOGISTIC", (1 / 256, -128))
+    un("HARD_SWISH", qa, ("HardSwishOptions", {}))
+    un("QUANTIZE", (qa[0] / 64, 0), ("QuantizeOptions", {}), dt="int16")
+    un("EXP", (1 / 8192, 0), ("ExpOptions", {}), dt="int16")
+    un("QUANTIZE", (1 / 256, -128), ("QuantizeOptions", {}))
+    un("HARD_SWISH", qa, ("HardSwishOptions", {}))
+    return True
+
+
 @inst("conv_then_c1")
 def _conv_then_c1(net):
     """a 16-channel convolution followed by a 1-channel one: on a dual-core part the second operator has a weight stream for core 0 only,
@@ -875,7 +900,7 @@ SIGMA_Q = [
     "conv1x1", "conv3x3", "conv3x3s2", "conv3x3v_relu6", "conv3x3d2", "dw3x3", "dw3x3s2", "fc", "maxpool2x2",
     "avgpool2x2", "avgpool3x3same", "add_res", "add_const", "add_scalar", "add_bcast_h", "sub_const", "mul_const",
     "min_const", "relu", "leaky_relu", "logistic", "tanh", "hard_swish", "reshape", "concat", "split", "strided_slice",
-    "pad_hw", "pad_c", "mean", "resize_nn2", "quantize", "tconv_s2", "softmax", "cpu_d2s", "cpu_custom", "conv_dynw", "cpu_neg", "tap", "branch_cpu", "branch_npu", "conv_dynw_nobias", "cpu_custom_opt", "conv3x3_c1", "slice", "conv_again", "conv_pair_shared", "reshape_requant", "fc_fc_sq", "conv_c3_sq", "cpu_conv_s4", "cpu_conv_s4_pair", "logistic_coarse", "c24_reshape_w_relu", "conv_then_c1", "cpu_squeeze0", "late_cpu_reader", "skip_over_cpu", "cpu_sub_nopot",
+    "pad_hw", "pad_c", "mean", "resize_nn2", "quantize", "tconv_s2", "softmax", "cpu_d2s", "cpu_custom", "conv_dynw", "cpu_neg", "tap", "branch_cpu", "branch_npu", "conv_dynw_nobias", "cpu_custom_opt", "conv3x3_c1", "slice", "conv_again", "conv_pair_shared", "reshape_requant", "fc_fc_sq", "conv_c3_sq", "cpu_conv_s4", "cpu_conv_s4_pair", "logistic_coarse", "c24_reshape_w_relu", "conv_then_c1", "cpu_squeeze0", "late_cpu_reader", "skip_over_cpu", "cpu_sub_nopot", "lut_evict_chain",
 ]
 SIGMA_T = SIGMA_Q + [n for n, (_, tags) in INSTANCES.items() if "t" in tags]
 SIGMA_C = [n for n, (_, tags) in INSTANCES.items() if "c" in tags]
